@@ -84,6 +84,13 @@ def markItems (ms : List (Option Occur × Opd × Nat)) : List PItem :=
 def markEntries (occ : Option Occur) (o : Opd) (ms : List (Option Occur × Opd × Nat)) : List (Entry CLeaf) :=
   (normOcc occ, o.leaf) :: ms.map fun x => (normOcc x.1, x.2.1.leaf)
 
+/-- the `-` marker of a chain operand -/
+def negMark (n : Bool) : Option Occur := if n then some .mustNot else none
+
+/-- the items `AND [-]x` / `OR [-]x`, with their layout -/
+def nopItems (nops : List (BinOp × Bool × Opd × Nat × Nat)) : List PItem :=
+  nops.map fun x => ⟨some x.1, negMark x.2.1, x.2.2.1, x.2.2.2.1, x.2.2.2.2⟩
+
 /-- a word as an operand -/
 def wordOpd (w : Str) : Opd := ⟨w, leafOf w, 1⟩
 
@@ -230,6 +237,20 @@ def boostOpd (o : Opd) (b : BoostLit) : Opd :=
 def fieldGroupOpd (f : Str) (lead : Nat) (occ : Option Occur) (o : Opd) (more : List PItem) (k : Nat) : Opd :=
   ⟨f ++ ':' :: '(' :: printList lead occ o more k [')'], setDefaultField f (listTree occ o more),
     o.cost + needRest more + 3⟩
+
+/-- the body of a single-quoted phrase with `'` and `\` escaped by a backslash -/
+def escSingle : Str → Str
+  | [] => []
+  | c :: r => if c == '\'' || c == '\\' then '\\' :: c :: escSingle r else c :: escSingle r
+
+/-- a single-quoted phrase of any characters (printed with escapes), optionally with a suffix -/
+def phraseSOpd (body : Str) (x : Sfx) : Opd :=
+  ⟨'\'' :: (escSingle body ++ '\'' :: x.text), .leaf (.literal none body .single x.slopVal x.isPfx), 1⟩
+
+/-- `name:'phrase'` of any characters (printed with escapes), optionally with a suffix -/
+def fieldPhraseSOpd (f body : Str) (x : Sfx) : Opd :=
+  ⟨f ++ ':' :: '\'' :: (escSingle body ++ '\'' :: x.text),
+    .leaf (.literal (some f) body .single x.slopVal x.isPfx), 1⟩
 
 /-- `NOT x` (`k + 1` blanks after the keyword) as an operand -/
 def notOpd (k : Nat) (o : Opd) : Opd :=
